@@ -365,7 +365,15 @@ impl fmt::Display for IterableKind {
     fn fmt(&self, f: &mut fmt::Formatter<'_>) -> fmt::Result {
         //TODO should i turn this into a self.to_primitive_set()  and then iterate and stringify?
         let s = match self {
-            IterableKind::Numbers(v) => format!("{:?}", v),
+            //decimals are written like a decimal on its own (the debug form of a float
+            //switches to an exponent below 1e-5 and from 1e16 on, which is not a literal)
+            IterableKind::Numbers(v) => format!(
+                "[{}]",
+                v.iter()
+                    .map(|value| Primitive::Number(*value).to_string())
+                    .collect::<Vec<_>>()
+                    .join(", ")
+            ),
             IterableKind::Integers(v) => format!("{:?}", v),
             //mixed values (for example integers and decimals) are written the way
             //each of them is written in the source, not with their debug names
